@@ -316,6 +316,10 @@ func c10EndToEnd(c *core.Ctx) {
 				break
 			}
 		}
+		if o.logPlain != "" {
+			// the command the chip decrypted is not the command the library meant to send (its own log of it)
+			c.Violation("C10:decrypted-command-differs-from-intended-e2e", fmt.Sprintf("%s (%s)", o.logPlain, name), map[string]any{"config": cfgs[j.k].cfg, "seed": j.v.Seed})
+		}
 		if o.truth.SMFailures > 0 {
 			c.Violation("C10:chip-rejected-protected-command-e2e", fmt.Sprintf("the chip refused %d protected command(s) of a fault-free read (%s): %+v", o.truth.SMFailures, name, o.truth.SMFailureLog), map[string]any{"config": cfgs[j.k].cfg})
 		}
